@@ -220,6 +220,7 @@ structure TargetFacts (T : Config) : Prop where
   pol_nodup : (pids T.policies).Nodup
   pol_managed : ∀ p ∈ T.policies, managed p.id = true
   grp : ∀ g ∈ T.groups, managed g.id = true ∧ g.addrs.Nodup
+  grp_nonempty : ∀ g ∈ T.groups, g.addrs ≠ []
   grp_nodup : (gids T.groups).Nodup
   svc : ∀ s ∈ T.services, managed s.id = true
   rules : ∀ p ∈ T.policies, (rids p.rules).Nodup ∧ ∀ r ∈ p.rules, refsDefined T r = true
@@ -230,7 +231,11 @@ theorem targetFacts_of {T : Config} (h1 : targetWF T = true) (h2 : policyIdsMana
   obtain ⟨⟨⟨⟨⟨a, b⟩, c⟩, d⟩, _⟩, f⟩ := h1
   unfold policyIdsManaged at h2
   simp only [List.all_eq_true] at h2
-  exact ⟨a, h2, b, c, d, f⟩
+  refine ⟨a, h2, fun g hg => ⟨(b g hg).1.1, (b g hg).1.2⟩, ?_, c, d, f⟩
+  intro g hg he
+  have := (b g hg).2
+  rw [he] at this
+  simp at this
 
 theorem serviceRef_servicePath (id : String) : serviceRef (servicePath id) = some id := cutPrefix_append _ _
 
@@ -350,7 +355,7 @@ theorem ctxFacts_of {diff : Diff} {S : Store} {T : Config} {ctx : Ctx} (hS : Sto
       obtain ⟨_, g0, hg0, hk, hsm⟩ := bpairs_mem hsame ((hmem k gb).mp h)
       obtain ⟨gt, hgt, e⟩ := mem_sortGroups hg0
       exact ⟨gt, hgt, by rw [← hk, e], by rw [hsm, e]⟩
-    refine ⟨⟨hS.grp_nodup, ?_, ?_, ?_, ?_, ?_⟩, rfl, rfl, ?_, hb_of, hb_sorted⟩
+    refine ⟨⟨hS.grp_nodup, ?_, ?_, ?_, ?_, ?_, ?_⟩, rfl, rfl, ?_, hb_of, hb_sorted⟩
     · intro ga hga
       obtain ⟨g, hgm, e⟩ := mem_sortGroups hga
       rw [hload] at hgm
@@ -375,6 +380,10 @@ theorem ctxFacts_of {diff : Diff} {S : Store} {T : Config} {ctx : Ctx} (hS : Sto
     · intro k gb h
       obtain ⟨gt, hgt, _, hp, _⟩ := hb_of k gb h
       exact hp.nodup_iff.mpr (hT.grp gt hgt).2
+    · intro k gb h he
+      obtain ⟨gt, hgt, _, hp, _⟩ := hb_of k gb h
+      rw [he] at hp
+      exact hT.grp_nonempty gt hgt (List.Perm.nil_eq hp).symm
     · intro k hk
       rw [← gids_sortGroups] at hk
       obtain ⟨g0, hg0, e⟩ := List.mem_map.mp hk
